@@ -116,6 +116,9 @@ def run_case(case):
                 exp = [comp_of[(id(a), t)] for a in res if (id(a), t) in comp_of]
                 got = m.systems[t]
                 got2 = m.systems.get_components(t)
+                got3 = m.systems.getComponents(t)
+                if got3 is not got and not (got3 == got):
+                    raise Violation("listing-forms-differ", f"{where}: systems[T] and the deprecated getComponents(T) differ")
                 if got is not got2 and not (got == got2):
                     raise Violation("listing-forms-differ", f"{where}: systems[T] and get_components(T) differ")
                 if not exp:
@@ -206,7 +209,11 @@ def run_case(case):
             if (id(a), t) in comp_of:
                 continue
             comp = t(a, a.model)
-            a.add_component(comp)
+            if k % 6 == 4:
+                a.addComponent(comp)            # the deprecated spelling is still an entry point
+                labels.add("deprecated-aliases")
+            else:
+                a.add_component(comp)
             comp_of[(id(a), t)] = comp
             if res_in is not None:
                 paired = bool(op.get("paired", True))
@@ -251,7 +258,11 @@ def run_case(case):
                 labels.add("detach-outside")
                 if id(a) in has_left:
                     changed_outside.add(id(a))
-            a.remove_component(t)
+            if k % 6 == 5:
+                a.removeComponent(t)
+                labels.add("deprecated-aliases")
+            else:
+                a.remove_component(t)
             via_join.discard(id(comp))
         elif kind == "join":
             if res_in is not None:
